@@ -43,7 +43,7 @@ func init() {
 }
 
 var restrict = wprog.Restrict{MaxOps: 7, MaxBody: 2500, SmallValues: true}
-var restrictWrite = wprog.Restrict{MaxOps: 7, MaxBody: 2500, SmallValues: true, Bulk: true, BulkOneIn: 15}
+var restrictWrite = wprog.Restrict{MaxOps: 7, MaxBody: 2500, SmallValues: true, Bulk: true, BulkOneIn: 8}
 
 func Run(e *core.Env) {
 	side := e.T.Weighted("side", 3, 2, 1)
